@@ -208,3 +208,24 @@ def validate(spec_dir, module, cfg, trace_path, timeout=900, heap='8g', workers=
         return verdicts, stats
     finally:
         shutil.rmtree(work, ignore_errors=True)
+
+
+def apalache(spec_dir, module, init, inv, length, timeout=600):
+    """apalache-mc check --init --inv --length on a typed spec; returns dict(ok, wall_s, cmd, out)."""
+    work = scratch('verif-apa-')
+    try:
+        _stage(spec_dir, work)
+        cmd = ['apalache-mc', 'check', '--init=' + init, '--inv=' + inv, '--length=%d' % length,
+               '--out-dir=' + os.path.join(work, 'out'), module + '.tla']
+        t0 = time.time()
+        try:
+            p = subprocess.run(cmd, cwd=work, stdout=subprocess.PIPE, stderr=subprocess.STDOUT,
+                               timeout=timeout, env=dict(os.environ, JVM_ARGS='-Xmx4g'))
+            out = p.stdout.decode('utf-8', 'replace')
+            rc = p.returncode
+        except (subprocess.TimeoutExpired, OSError) as e:
+            out, rc = str(e), -9
+        return dict(ok=(rc == 0 and 'EXITCODE: OK' in out), rc=rc, wall_s=round(time.time() - t0, 1),
+                    cmd=' '.join(cmd[:6] + [module + '.tla']), out=out[-2000:])
+    finally:
+        shutil.rmtree(work, ignore_errors=True)
